@@ -13,6 +13,7 @@ def monitor(s, t):
     if d is None:
         return "malformed or panicking run: %s" % t[:10]
     cap, mw, n, evt = d
+    mwn = ns_of(mw) if mw >= 0 else -1     # nanoseconds
     now = 0
     called = {}         # caller -> instant its call future was created (call())
     first = {}          # caller -> first poll instant
@@ -29,13 +30,17 @@ def monitor(s, t):
             reached.add(j)
         if op in (1, 2, 5) and a not in called:
             called[a] = now
+        if op == 6:
+            for j in range(n + cap + 1):
+                called.setdefault(j, now)
         if op == 3:
             old = now
-            now += max(0, a)
+            now += ns_of(a)
             if mw >= 0:
                 for i, st in state.items():
-                    if st == 'wait' and i < MASKW and old < first[i] + mw <= now and not (mask >> i) & 1:
-                        return "caller %d still waiting at its deadline %d was not woken" % (i, first[i] + mw)
+                    # the timer takes effect at the first millisecond tick at or after the deadline
+                    if st == 'wait' and i < MASKW and old < ceil_ms(first[i] + mwn) <= now and not (mask >> i) & 1:
+                        return "caller %d still waiting at its deadline %d ns was not woken" % (i, first[i] + mwn)
         elif op == 2:
             if state.get(a) in (None, 'wait'):
                 if a in reached:
@@ -54,16 +59,19 @@ def monitor(s, t):
             elif state.get(i) == 'wait' and len(running) < cap and not waiting and r == 0 and not started:
                 return "caller %d is the only one waiting, %d in flight (cap %d), and its poll neither admitted nor rejected it: capacity lost" % (i, len(running), cap)
             if r == 4:
-                return "BulkheadFull returned (semaphore is never closed)"
+                return "caller %d was rejected with BulkheadFull, not with the bulkhead timeout error" % i
+            if r in (1, 2, 5) and not started and state.get(i, 'wait') == 'wait' and i not in reached:
+                return "caller %d could not get a slot and ended with %s instead of the bulkhead timeout error" % (
+                    i, {1: "Ok", 2: "an inner error", 5: "a panic"}[r])
             if r == 3:
                 if mw < 0:
                     return "timeout rejection without max_wait_duration"
-                if now < called[i] + mw:
-                    return "caller %d rejected at %d, before arrival %d + max_wait %d" % (i, now, called[i], mw)
+                if now < called[i] + mwn:
+                    return "caller %d rejected at %d ns, before arrival %d + max_wait %d" % (i, now, called[i], mwn)
                 if started or state.get(i) == 'run' or i in reached:
                     return "rejected caller %d reached the inner service" % i
                 barred[i] = "rejected"
-            if r == 0 and not started and state.get(i, 'wait') == 'wait' and mw >= 0 and now >= first[i] + mw:
+            if r == 0 and not started and state.get(i, 'wait') == 'wait' and mw >= 0 and now >= ceil_ms(first[i] + mwn):
                 return "caller %d polled at/after its deadline is still pending" % i
             if started:
                 state[i] = 'run'
